@@ -67,5 +67,13 @@ Definition utf8_check_code (c : list N * bool * N * bool * bool) : N :=
   else if ours_ok && negb same then 4
   else 0.
 
+(* deserialization from raw bytes: (bytes, SharedString via visit_bytes, via visit_byte_buf, SharedBytes);
+   codes: 0 = refused, 1 = accepted and holds exactly these bytes, 2 = accepted with other bytes *)
+Definition de_check_code (c : list N * N * N * N) : N :=
+  let '(bs, sb, so, bb) := c in
+  let want := if valid bs then 1 else 0 in
+  if negb (sb =? want) then 1 else if negb (so =? want) then 2 else if negb (bb =? 1) then 3 else 0.
+Definition de_explain (c : list N * N * N * N) := let '(bs, _, _, _) := c in (decode bs, valid_up_to bs).
+
 Definition bytes_explain (c : list (step_t * obs)) := fst (fold_left (fun a x => let '(s, o) := model_steps (fst a) (fst x) in (s, snd a ++ [o])) c (init, [])).
 Definition utf8_explain (c : list N * bool * N * bool * bool) := let '(bs, _, _, _, _) := c in (decode bs, valid_up_to bs).
